@@ -238,6 +238,132 @@ fn big_env_export(ctx: &Ctx, st: &mut Stats, functions: usize) {
     }
 }
 
+/// Child-process half of `wide_heap_export` (main thread of a fresh process, so that small
+/// allocations come from the one contiguous heap). Builds 40 random diagrams, grows the heap by
+/// just under 4 GiB of untouched filler so that the next allocations start exactly 2^32 bytes above
+/// the first ones, builds 40 more in the same way, and exports one diagram containing them all.
+/// Prints one line: `WIDE-HEAP ok ...`, `WIDE-HEAP skipped ...` or `WIDE-HEAP violation ...`.
+pub fn wide_heap_child(seed: u64) -> i32 {
+    use std::collections::HashSet;
+    let mut rng = Rng::stream(seed, "C14.wideheap", 0);
+    let env: BDDEnv<usize> = BDDEnv::new();
+    let nv = 10u32;
+    let fvars: Vec<(usize, u32)> = (0..nv).map(|i| (1000 + i as usize, i)).collect();
+    // a kept 40-byte block (the size class of a diagram node); once the free lists of that class
+    // are drained, such a block comes from the top of the heap and tells where the heap ends
+    // (both vectors get their full capacity up front — untouched, so it costs address space only —
+    // because a vector that grows would itself be re-allocated at the top of the heap)
+    let mut kept: Vec<Box<[u8; 40]>> = Vec::with_capacity(52_000_000);
+    let mut probe = |kept: &mut Vec<Box<[u8; 40]>>| -> usize {
+        let b = Box::new([0u8; 40]);
+        let a = &*b as *const [u8; 40] as usize;
+        kept.push(b);
+        a
+    };
+    // pre-size the unique table so that it does not move while the diagrams are built
+    let warm: Vec<Rc<BDD<usize>>> = (0..400).map(|_| build_in_env(&env, &random_table(&mut rng, nv, 8), &fvars)).collect();
+    let first: Vec<Rc<BDD<usize>>> = (0..40).map(|_| build_in_env(&env, &random_table(&mut rng, nv, 8), &fvars)).collect();
+    let addresses_of = |ds: &[Rc<BDD<usize>>]| -> Vec<usize> { ds.iter().flat_map(|d| d.node_list()).map(|n| Rc::as_ptr(&n) as usize).collect() };
+    let a1 = addresses_of(&first);
+    let (start1, end1) = (*a1.iter().min().unwrap(), *a1.iter().max().unwrap());
+    let target = start1 as u64 + (1u64 << 32);
+    let mut filler: Vec<Vec<u8>> = Vec::with_capacity(2_200_000);
+    // coarse: grow the heap (the program break tells how far) to 64 MiB below the target
+    let mut last_filler = 0usize;
+    while (unsafe { libc::sbrk(0) } as u64) + (64 << 20) < target && filler.len() < 100_000 {
+        let v: Vec<u8> = Vec::with_capacity(65536 - 16);
+        last_filler = v.as_ptr() as usize;
+        filler.push(v);
+    }
+    // drain the free lists of the node size class: allocate until a block lies beyond every filler
+    // block, i.e. comes from the top of the heap; from then on a kept block tells where the heap ends
+    let mut drained = 0usize;
+    while probe(&mut kept) < last_filler && drained < 50_000_000 {
+        drained += 1;
+    }
+    loop {
+        let now = probe(&mut kept) as u64;
+        if now < start1 as u64 || now > target + (1 << 20) {
+            println!("WIDE-HEAP skipped the heap is not contiguous here (first nodes from {:#x}, heap top {:#x}, {} filler blocks)", start1, now, filler.len());
+            return 0;
+        }
+        let need = target.saturating_sub(now);
+        if need < 4096 {
+            break;
+        }
+        let size = if need > (1 << 20) { 65536 - 16 } else if need > 16384 { 4096 - 16 } else { 256 - 16 };
+        filler.push(Vec::with_capacity(size));
+        if filler.len() > 2_000_000 {
+            println!("WIDE-HEAP skipped more than 2000000 filler blocks");
+            return 0;
+        }
+    }
+    let start2 = probe(&mut kept);
+    let second: Vec<Rc<BDD<usize>>> = (0..40).map(|_| build_in_env(&env, &random_table(&mut rng, nv, 8), &fvars)).collect();
+    // one diagram over fresh top variables that contains all of them
+    let mut d = env.mk_const(false);
+    for (i, (a, b)) in first.iter().zip(second.iter()).enumerate() {
+        d = env.mk_choice(Rc::clone(a), 2 * i, env.mk_choice(Rc::clone(b), 2 * i + 1, d));
+    }
+    let nodes = d.node_list();
+    let distinct: HashSet<usize> = nodes.iter().map(|n| Rc::as_ptr(n) as usize).collect();
+    let low: HashSet<u32> = distinct.iter().map(|a| *a as u32).collect();
+    let span = distinct.iter().max().unwrap() - distinct.iter().min().unwrap();
+    let mut buf: Vec<u8> = Vec::new();
+    if let Err(e) = BDDGraph::new(&d, TruthTableEntry::Any).render_dot(&mut buf) {
+        println!("WIDE-HEAP violation render_dot failed: {}", e);
+        return 1;
+    }
+    let text = String::from_utf8_lossy(&buf).to_string();
+    let info = format!("nodes={} span={:#x} same_low_32_bits={} filler_blocks={} first={:#x}..{:#x} second_from={:#x} warm={}", distinct.len(), span, distinct.len() - low.len(), filler.len(), start1, end1, start2, warm.len());
+    match dotread::parse(&text) {
+        Err(e) => {
+            println!("WIDE-HEAP violation the export cannot be read back: {} [{}]", e, info);
+            1
+        }
+        Ok(dot) => {
+            let ids: HashSet<&str> = dot.nodes.iter().map(|n| n.0.as_str()).collect();
+            let undeclared = dot.edges.iter().filter(|e| !ids.contains(e.0.as_str()) || !ids.contains(e.2.as_str())).count();
+            if ids.len() != dot.nodes.len() || dot.nodes.len() != distinct.len() || undeclared > 0 {
+                println!("WIDE-HEAP violation a diagram of {} distinct nodes is exported with {} declarations under {} distinct ids ({} edges to undeclared nodes) [{}]", distinct.len(), dot.nodes.len(), ids.len(), undeclared, info);
+                1
+            } else {
+                println!("WIDE-HEAP ok {}", info);
+                0
+            }
+        }
+    }
+}
+
+/// The export of a diagram whose nodes lie MORE THAN 4 GiB APART in memory (a process that built a
+/// large environment first), two thirds of them at addresses that agree in their low 32 bits with
+/// an earlier node's. Every distinct node must still be declared once under an id of its own.
+fn wide_heap_export(ctx: &Ctx, st: &mut Stats) {
+    st.evals += 1;
+    let case = || json!({"kind": "wide-heap", "seed": ctx.seed});
+    let Ok(exe) = std::env::current_exe() else { return };
+    let out = cli::run(&exe, &["__wide_heap_export".to_string(), ctx.seed.to_string()], None, None, None, Duration::from_secs(300));
+    let so = out.stdout_str();
+    let line = so.lines().find(|l| l.starts_with("WIDE-HEAP")).unwrap_or("").to_string();
+    if out.timed_out {
+        st.bump("wide_heap_watchdog(inconclusive case)");
+    } else if line.starts_with("WIDE-HEAP ok") {
+        st.bump("wide_heap_exports");
+        let n: u64 = line.split("same_low_32_bits=").nth(1).and_then(|r| r.split_whitespace().next()).and_then(|x| x.parse().ok()).unwrap_or(0);
+        st.add("exported_nodes_sharing_their_low_32_address_bits_with_another", n);
+        if n > 0 {
+            st.nt.insert(mix(0x14_4e, ctx.seed));
+        }
+    } else if line.starts_with("WIDE-HEAP skipped") {
+        st.bump("wide_heap_not_available(skipped)");
+    } else if line.starts_with("WIDE-HEAP violation") {
+        st.violate("c14.bdd", "C14:bdd:wide-heap-export".into(), line["WIDE-HEAP violation".len()..].trim().to_string(), case());
+    } else {
+        // the helper died (out of memory, say): not a verdict
+        st.bump("wide_heap_helper_failed(inconclusive case)");
+    }
+}
+
 fn random_bdd_job(ctx: &Ctx, job: usize, iters: u64) -> Stats {
     let mut st = Stats::new();
     let mut rng = Rng::stream(ctx.seed, "C14.bdd", job as u64);
@@ -503,6 +629,7 @@ pub fn run(ctx: &Ctx) -> (Stats, Spec) {
     });
     st.merge(crate::report::merge_all(parts));
     big_env_export(ctx, &mut st, ctx.tier.pick(3_600usize, 10_000usize));
+    wide_heap_export(ctx, &mut st);
     for t in [
         "[a, a] = 1", "(a & b) | (a & b)", "exists b, c # a | (b ^ c)", "if a then a else a", "[a, b] >= [b, a]", "lfp X # X | a", "gfp X # lfp Y # X & Y", "-(-a)", "{r} & {r}", "true & false", "a' | é", "forall # a", "[] = 0", "[a,] < [b,]",
         "a nor (b nand (c <= (d => (e <=> (f ^ a)))))",
@@ -538,6 +665,11 @@ pub fn replay(ctx: &Ctx, _monitor: &str, case: &Value, st: &mut Stats) {
         "tree" => check_tree_text(st, case.get("text").and_then(|t| t.as_str()).unwrap_or(""), "replay"),
         "cli" => cli_case(ctx, st, case.get("text").and_then(|t| t.as_str()).unwrap_or(""), case.get("filter").and_then(|f| f.as_str()), "replay"),
         "aliased-exports" => aliased_exports_case(ctx, st, case.get("text").and_then(|t| t.as_str()).unwrap_or(""), case.get("through_link").and_then(|f| f.as_bool()).unwrap_or(false), "replay"),
+        "wide-heap" => {
+            let mut c2 = ctx.clone();
+            c2.seed = case.get("seed").and_then(|j| j.as_u64()).unwrap_or(ctx.seed);
+            wide_heap_export(&c2, st);
+        }
         "bdd-unreduced" => unreduced_exports(st),
         "big-env" => {
             let mut c2 = ctx.clone();
